@@ -94,31 +94,39 @@ let () =
       let cl_old = (match mcla with Lines n -> n | _ -> O) in
       let mburn = show_hm (burndown_accepts cl_old (nat_of_int gold) (nat_of_int gnew) ds) in
       if mburn <> gburn then mismatch id (Printf.sprintf "burndown consumer impl=%s model handle_modification=%s" gburn mburn);
-      (* ---------- the property, judged on the implementation's outputs *)
+      (* ---------- the property, judged on the implementation's outputs (independent of the model of
+         stripWhitespace: lines of the unstripped blobs, equality up to spaces when WhitespaceIgnore is on) *)
       let fails = ref [] in
       let add s = fails := s :: !fails in
-      let script_fine = lines_script_ok la lb ds in
+      let ula = split_lines a and ulb = split_lines b in
+      let nua = List.length ula and nub = List.length ulb in
+      let script_fine = spec_ok ws a b ds in
       if not script_fine then begin
-        if not (canonical ds) then add "shape: an empty run, a deletion after a deletion/insertion or an insertion after an insertion";
-        if int_of_nat (old_total ds) <> nla || int_of_nat (new_total ds) <> nlb then
+        if not (canonical ds) then add "shape: a deletion directly after a deletion/insertion, or an insertion directly after an insertion";
+        if int_of_nat (old_total ds) <> nua || int_of_nat (new_total ds) <> nub then
           add (Printf.sprintf "totals: equal+delete=%d for %d old lines, equal+insert=%d for %d new lines"
-                 (int_of_nat (old_total ds)) nla (int_of_nat (new_total ds)) nlb)
-        else begin
-          (* are the equal runs right once empty runs are dropped?  (canonical + totals fine + validator says no
-             = an equal run over different lines, by C11_script_ok_iff) *)
-          let ds' = List.filter (fun (_, n) -> n <> O) ds in
-          if canonical ds' && not (lines_script_ok la lb ds') then
-            add "an equal run covers lines that differ between the two versions"
-        end
+                 (int_of_nat (old_total ds)) nua (int_of_nat (new_total ds)) nub)
+        else if canonical ds then
+          (* canonical + totals fine + validator says no = an equal run over different lines (C11_script_ok_iff) *)
+          add "an equal run covers lines that differ between the two versions"
       end;
+      if List.exists (fun (_, n) -> n = 0) ds_i then count "scripts_with_empty_runs";
       let cnt_bad = gcla <> string_of_int gold || gclb <> string_of_int gnew in
       if cnt_bad then add (Printf.sprintf "line counts: OldLinesOfCode=%d CountLines(old)=%s NewLinesOfCode=%d CountLines(new)=%s" gold gcla gnew gclb);
       if gburn <> "ok" then add ("burndown consumer rejects the diff: " ^ gburn);
+      (* second consumer: the line statistics must account for the difference of the two line counts *)
+      (match args (field "stats" obs), int_of_string_opt gcla, int_of_string_opt gclb with
+       | [x; y; _], Some ca, Some cb ->
+           if ca + int_of_sx x - int_of_sx y <> cb then
+             add (Printf.sprintf "line statistics do not conserve lines: %d + added %d - removed %d <> %d" ca (int_of_sx x) (int_of_sx y) cb)
+       | _ -> ());
       if !fails <> [] then begin
         (* the signature of the known finding about WhitespaceIgnore: the script is fine, and each count is
            CountLines minus one exactly for the blobs whose last line is non-empty and all spaces *)
         let d x = if last_blank x then 1 else 0 in
-        let f9 = ws && script_fine && (last_blank a || last_blank b)
+        let osa = (match field_opt "sa" obs with Some x -> zs_of_sx (List.hd (args x)) | None -> a)
+        and osb = (match field_opt "sb" obs with Some x -> zs_of_sx (List.hd (args x)) | None -> b) in
+        let f9 = ws && lines_script_ok (split_lines osa) (split_lines osb) ds && (last_blank a || last_blank b)
                  && gcla = string_of_int (gold + d a) && gclb = string_of_int (gnew + d b)
                  && gburn = (if last_blank a then "src" else "ok") in
         let runs = List.length ds_i in
